@@ -82,11 +82,21 @@ fn positional(p: &Pat) -> Vec<i128> {
     out
 }
 
+/// the identifier of the i-th enumeral (every third one has a hyphen: its Rust / TypeScript
+/// member name differs from it, the name on the wire must not)
+pub fn enumeral_name(i: usize) -> String {
+    if i % 3 == 1 {
+        format!("it-{i}x")
+    } else {
+        format!("it{i}")
+    }
+}
+
 pub fn print_enum(p: &Pat) -> String {
     let mut s = String::from("ENUMERATED { ");
     let item = |i: usize, v: &Option<i128>| match v {
-        Some(n) => format!("it{i}({n})"),
-        None => format!("it{i}"),
+        Some(n) => format!("{}({n})", enumeral_name(i)),
+        None => enumeral_name(i),
     };
     let root: Vec<String> = p.root.iter().enumerate().map(|(i, v)| item(i, v)).collect();
     s.push_str(&root.join(", "));
@@ -232,7 +242,7 @@ fn judge(p: &Pat, obs: &Obs) -> Option<(&'static str, String)> {
         return Some(("names", format!("{} variants for {n} enumerals", obs.names.len())));
     }
     for (i, nm) in obs.names.iter().enumerate() {
-        if *nm != format!("it{i}") {
+        if *nm != enumeral_name(i) {
             return Some(("names", format!("variant {i} is {nm}")));
         }
     }
@@ -315,6 +325,46 @@ fn run_batch(ctx: &mut Ctx, pats: &[Pat], nested: bool, tagc: &str) {
             (ch.to_vec(), r, text)
         })
         .collect();
+    // the TypeScript bindings: a named ENUMERATED is an enum whose member *values* are the
+    // enumeral identifiers in order, one written in place is a union of those string literals
+    let ts_fails: Vec<(Pat, String)> = chunks
+        .par_iter()
+        .flat_map(|ch| {
+            let (text, _) = module_text(ch, nested);
+            let mut out = vec![];
+            let Outcome::Ok(c) = comp::compile_ts(&[text]) else { return out };
+            let Ok(nss) = crate::tsparse::parse(&c.generated) else { return out };
+            let Some(ns) = nss.first() else { return out };
+            let decls = crate::tsparse::decl_map(ns);
+            for (i, p) in ch.iter().enumerate() {
+                let n = p.root.len() + p.ext.as_ref().map_or(0, |e| e.len());
+                let want: Vec<String> = (0..n).map(enumeral_name).collect();
+                let tname = if nested { format!("S{i}") } else { format!("E{i}") };
+                let got: Option<Vec<String>> = match decls.get(&tname).and_then(|d| d.first()) {
+                    Some(crate::tsparse::Decl::Enum(ms)) if !nested => Some(ms.iter().map(|m| m.1.clone()).collect()),
+                    Some(crate::tsparse::Decl::Type(crate::tsparse::TsType::Object { members, .. })) if nested => members.first().map(|m| match &m.2 {
+                        crate::tsparse::TsType::Union(v) => v.iter().map(|x| match x { crate::tsparse::TsType::StrLit(s) => s.clone(), o => format!("{o:?}") }).collect(),
+                        crate::tsparse::TsType::StrLit(s) => vec![s.clone()],
+                        o => vec![format!("{o:?}")],
+                    }),
+                    _ => None,
+                };
+                match got {
+                    Some(g) if g == want => {}
+                    Some(g) => out.push((p.clone(), format!("TypeScript: {tname} carries the enumeral names {g:?}, the source says {want:?}"))),
+                    None => out.push((p.clone(), format!("TypeScript: no {} declaration for {tname}", if nested { "object" } else { "enum" }))),
+                }
+            }
+            out
+        })
+        .collect();
+    ctx.class_n("backend:typescript (enumeral names)", pats.len() as u64);
+    for (k, (p, d)) in ts_fails.iter().enumerate() {
+        ctx.class("fails:ts-names");
+        if k < 3 {
+            ctx.fail(Failure { finding: None, what: format!("names: {d} in {}", print_enum(p)), replay: pat_payload(p, nested, d) });
+        }
+    }
     for (ch, r, text) in results {
         match r {
             Err(e) => {
